@@ -236,13 +236,14 @@ def unsupStep (s : St) (t : Token) (onEnd : Ctl) : St :=
   | .endofcommand => s.go onEnd
   | _ => s
 
-/-- `for tok4 != ENDOFCOMMAND { … }` of `case TREE` with the current token -/
+/-- `for tok4 != ENDOFCOMMAND { … }` of `case TREE` with the current token.  `acc` is the tree string
+    read so far REVERSED (`tree += lit4` is a cons of the reversed literal: linear instead of quadratic) -/
 def treeAccum (s : St) (l : TreesL) (name acc : List Char) (t : Token) : St :=
   if t.tok = .endofcommand then
-    s.go (.rHead { l with names := l.names ++ [name], strings := l.strings ++ [acc] })
+    s.go (.rHead { l with names := l.names ++ [name], strings := l.strings ++ [acc.reverse] })
   else if t.tok ≠ .ident && t.tok ≠ .openbrack && t.tok ≠ .closebrack && t.tok ≠ .comma && t.tok ≠ .equal && t.tok ≠ .numeric then
     s.fail "Expecting a tree after 'TREE name ='"
-  else s.go (.rTreeAcc l name (acc ++ t.lit))
+  else s.go (.rTreeAcc l name (t.lit.reverse ++ acc))
 
 /-- `missing = []rune(lit4)[0]` / `gap = …` with the checks around it -/
 def singleChar (pins : Pins) (s : St) (bad : Bool) (t : Token) (set : Char → Ctl) : St :=
@@ -327,7 +328,10 @@ def step (pins : Pins) (s : St) (t : Token) : St :=
     | _ => s.go (.rUnsup l)
   | .rEndSemi l =>
     if t.tok ≠ .endofcommand then s.fail "End token without ;"
-    else { s with ctl := .main, acc := { s.acc with hasTrees := true, treenames := l.names, treestrings := l.strings } }
+    else
+      -- the trees of every TREES block are kept (82a8873): appended to those of the blocks before
+      { s with ctl := .main, acc := { s.acc with hasTrees := true, treenames := s.acc.treenames ++ l.names,
+                                                  treestrings := s.acc.treestrings ++ l.strings } }
   | .rTr l tbl =>
     match t.tok with
     | .ident | .numeric => s.go (.rTrVal l tbl t.lit)
